@@ -251,6 +251,18 @@ class Model:
                     pass
         elif k == "tsc_inv":
             yield st._replace(tsc=None), None, ()
+        elif k == "tsc_resizing":
+            # like "tsc", but if the body runs the terminal changes to environment op[1] meanwhile: the
+            # value it returns belongs to the size the call started with, and is memoized for that size
+            size = self._size(st)
+            if st.tsc is None or st.tsc[1] != size:
+                if st.fail:
+                    yield st._replace(fail=False), ("raised", 1), ()
+                    return
+                v = tval(st.e, self._env(st))
+                yield st._replace(tsc=(v, size), e=op[1]), (v, 1), ()
+            else:
+                yield st, (st.tsc[0], 0), ()
         elif k == "cached":
             a = op[1]
             if st.cached[a] is None and st.fail:
@@ -271,7 +283,7 @@ class Model:
         else:
             raise ValueError(op)
 
-    CLAUSE = dict(cell_size="cell-size", cell_size_int="cell-size", cell_size_silent="cell-size", cell_ratio="cell-ratio", ratio="set-cell-ratio", name="name-version",
+    CLAUSE = dict(tsc_resizing="terminal-size-cached", cell_size="cell-size", cell_size_int="cell-size", cell_size_silent="cell-size", cell_ratio="cell-ratio", ratio="set-cell-ratio", name="name-version",
                   colors="fg-bg-colors", render="kitty-workaround", tsc="terminal-size-cached", cached="cached")
 
     def step(self, op, obs):
@@ -302,7 +314,7 @@ class Model:
                         tags = t
         sig = dict(stale="+".join(tags) if tags else "no")
         k = op[0]
-        if k in ("tsc", "cached") and preds:
+        if k in ("tsc", "cached", "tsc_resizing") and preds:
             want = _norm(preds[0])
             if "raised" in (obs[0], want[0]) and obs[0] != want[0]:
                 sig["how"] = "raised" if obs[0] == "raised" else "did-not-raise"
@@ -352,6 +364,8 @@ def _opname(op):
     k = op[0]
     if k == "cell_size_int":
         return f"get_cell_size() with {'KeyboardInterrupt' if op[2] == 'kbd' else 'termios.error'} at its tty call #{op[1]}"
+    if k == "tsc_resizing":
+        return f"terminal_size_cached probe whose body resizes the terminal to environment {op[1]}"
     if k == "cell_size_silent":
         return "get_cell_size() while the terminal answers too late"
     if k == "ratio":
